@@ -178,7 +178,7 @@ func stringsLeg(e *env) {
 	}
 	nrand := 3
 	if e.thorough {
-		nrand = 40
+		nrand = 20
 	}
 	for _, t := range allTypes {
 		vals := boundaryValues(t, e.thorough)
